@@ -18,6 +18,10 @@ if os.path.exists(tf):
 by = collections.defaultdict(collections.Counter)
 for d in recs.values():
     by[d["target"]][d["result"]] += 1
+import io, sys
+_buf = io.StringIO()
+_old = sys.stdout
+sys.stdout = _buf
 print("| target | mutants | killed | survived | inconclusive |")
 print("|---|---|---|---|---|")
 tot = collections.Counter()
@@ -34,3 +38,7 @@ for d in recs.values():
     t = tri.get((d["file"], d["line"], d["after"]))
     cls[t["class"] if t else "not triaged"] += 1
 print("survivors by triage class:", dict(cls))
+
+sys.stdout = _old
+open(os.path.join(here, "SUMMARY.md"), "w").write(_buf.getvalue())
+print(_buf.getvalue())
